@@ -33,10 +33,11 @@ const (
 	CrashBefore          // client dies before the call lands
 	CrashAfter           // call lands, then the client dies
 	deadCall             // call of an already dead client
+	FailConsumed         // writes only: the request body is read completely, nothing lands, error returned
 )
 
 func (d Decision) String() string {
-	return [...]string{"grant", "fail-before", "fail-after", "crash-before", "crash-after", "dead"}[d]
+	return [...]string{"grant", "fail-before", "fail-after", "crash-before", "crash-after", "dead", "fail-after-reading-body"}[d]
 }
 
 // ErrTransient is the injected retryable storage error.
@@ -183,7 +184,7 @@ func (g *GatedStore) gate(op, key string, write bool) Decision {
 
 func errFor(d Decision) error {
 	switch d {
-	case FailBefore, FailAfter:
+	case FailBefore, FailAfter, FailConsumed:
 		return ErrTransient
 	default:
 		return ErrDead
@@ -243,11 +244,27 @@ func (g *GatedStore) Touch(ctx context.Context, k string) error {
 }
 
 func (g *GatedStore) Put(ctx context.Context, k string, r io.Reader, no bool) error {
-	return g.write("Put", k, func() error { return g.Inner.Put(ctx, k, r, no) })
+	return g.writeBody("Put", k, r, func() error { return g.Inner.Put(ctx, k, r, no) })
+}
+
+// writeBody is write for calls carrying a request body: FailConsumed drains it before failing.
+func (g *GatedStore) writeBody(op, k string, body io.Reader, f func() error) error {
+	switch d := g.gate(op, k, true); d {
+	case Proceed:
+		return f()
+	case FailAfter, CrashAfter:
+		_ = f()
+		return errFor(d)
+	case FailConsumed:
+		_, _ = io.Copy(io.Discard, body)
+		return errFor(d)
+	default:
+		return errFor(d)
+	}
 }
 
 func (g *GatedStore) PutCRC(ctx context.Context, k string, r io.Reader, no bool, crc uint32) error {
-	return g.write("Put", k, func() error {
+	return g.writeBody("Put", k, r, func() error {
 		if c, ok := g.Inner.(storage.StoreCRC); ok {
 			return c.PutCRC(ctx, k, r, no, crc)
 		}
@@ -589,6 +606,17 @@ func (e *Explorer) Explore(t *testing.T, rep *Report) {
 	// determinism proof: the default schedule twice, identical observations
 	a, b := RunExec(t, e.Sc, nil), RunExec(t, e.Sc, nil)
 	if strings.Join(a.Trace(), "\n") != strings.Join(b.Trace(), "\n") || a.outcome != b.outcome {
+		ta, tb := a.Trace(), b.Trace()
+		for i := 0; i < len(ta) && i < len(tb); i++ {
+			if ta[i] != tb[i] {
+				lo := i - 3
+				if lo < 0 {
+					lo = 0
+				}
+				fmt.Printf("NONDETERMINISM first difference at step %d (of %d / %d):\n  A: %v\n  B: %v\n", i, len(ta), len(tb), ta[lo:i+1], tb[lo:i+1])
+				break
+			}
+		}
 		t.Fatalf("scenario %s is not deterministic under the controlled scheduler:\n%v\n--- vs ---\n%v\noutcomes %q vs %q", e.Sc.Name, a.Trace(), b.Trace(), a.outcome, b.outcome)
 	}
 	e.Determined = true
